@@ -358,7 +358,8 @@ impl CompassApp {
 
         // input plugins need to be flattened, and queries that fail input processing need to be
         // returned at the end.
-        let plugin_chunk_size = (queries.len() as f64 / self.parallelism as f64).ceil() as usize;
+        let plugin_chunk_size =
+            ((queries.len() as f64 / self.parallelism as f64).ceil() as usize).max(1);
         let input_plugin_result: (Vec<_>, Vec<_>) = queries
             .par_chunks(plugin_chunk_size)
             .map(|queries| {
